@@ -242,6 +242,10 @@ def run_program(ctx, prog, kw, ins, sample=False):
         if ri[0] != "ok":
             ctx.count("inputs_interpreter_rejects")
             continue
+        if peek_failed(prog, ri[1]):
+            # look-ahead over truncated data: documented as outside what generated code handles (it omits the length checks)
+            ctx.count("inputs_skipped_lookahead_failed")
+            continue
         accepted += 1
         ctx.ev()
         ctx.count("comparisons")
@@ -284,6 +288,13 @@ def run_program(ctx, prog, kw, ins, sample=False):
     ctx.count("linked_fallbacks", linked)
     if sample:
         ctx.sample({"program": prog, "kw": kw, "accepted_inputs": accepted, "natively_emitted_fragments": native, "linked_fallbacks": linked})
+
+
+def peek_failed(prog, value):
+    for nm, m in prog[1]:
+        if m[0] == "Peek" and nm in value and value[nm] is None:
+            return True
+    return False
 
 
 DERIVED = ("Rebuild", "Default", "Const", "Computed")
